@@ -5,7 +5,7 @@ from __future__ import annotations
 import copy
 
 from .. import e1, impl
-from ..chartgen import section
+from ..chartgen import RAW, section
 from ..refmodel import TRACK_HEADERS
 
 ID = "C13"
@@ -36,6 +36,7 @@ REPLACEMENTS = (
     ("valid", ["1 = N 4 2", "70 = N 3 0", "70 = N 5 0"], True),
     ("empty", [], True),
     ("garbage", ["garbage", "1 = N 9 0", ""], True),
+    ("brace look-alikes", ["1 = N 4 2", "}", "2 = N 1 0", RAW + "} ", "{", "[EasyKeyboard]", RAW + "{ ", "3 = N 2 0", RAW + "\t}", "9 = N 0 0"], True),
     ("forced-first", ["0 = N 0 0", "0 = N 5 0"], False),
     ("unsorted", ["60 = E a", "10 = E b"], False),
 )
